@@ -37,6 +37,9 @@ pub enum Kind {
     EightW1,
     /// a root tree of height 15 with an aux buffer that caches levels larger than 64 KiB
     TallAux(bool),
+    /// a SigningKey object built from valid bytes whose pub bytes field is overwritten afterwards
+    /// with this many bytes (prefix of the valid key / garbage), then used
+    KeyObjectMutated(u8, bool),
     /// a valid 2-level key at its last / second-to-last leaf with a stale (valid-looking) parameter
     /// byte behind the 0xff terminator: (position 3..8, byte, counter from the end)
     StaleSlot(u8, u8, u8),
@@ -328,6 +331,17 @@ pub fn check(c: &Case) -> Verdict {
             }
             r
         }
+        Kind::KeyObjectMutated(len, garbage) => {
+            let mut nb = good.clone();
+            nb.truncate(*len as usize);
+            if *garbage {
+                nb = gen::expand(*len as u64, *len as usize);
+            }
+            match libapi::use_mutated_signing_key_object(h, &good, &nb, b"mutated object") {
+                Out::Panic(p) => Err((format!("key-object-{}", panic_key(&p)), format!("SigningKey panics after its pub bytes field was overwritten with {} bytes: {}", nb.len(), p))),
+                _ => Ok("no-panic".into()),
+            }
+        }
         Kind::TallAux(keygen) => {
             let shape: Vec<Level> = vec![(2, 15)];
             let budget = 4 + n + (n << 15) + (n << 13) + (n << 11) + 500;
@@ -422,6 +436,10 @@ pub fn run(ctx: &Ctx) {
         for w in [0u32, 1, 2, 0x8000_0000, 0xffff_ffff, 0x7fff_ffff, 0x83ff_ffff, 0x8200_0000, 0x8000_0001, 0x8000_0020] {
             items.push(Case { hash: *h, kind: Kind::AuxLevelWord(w, true) });
             items.push(Case { hash: *h, kind: Kind::AuxLevelWord(w, false) });
+        }
+        for len in 0..=48u8 {
+            items.push(Case { hash: *h, kind: Kind::KeyObjectMutated(len, false) });
+            items.push(Case { hash: *h, kind: Kind::KeyObjectMutated(len, true) });
         }
         for pos in 0..5u8 {
             for v in [0x14u8, 0x13, 0x54, 0x61, 0x00, 0xfe] {
